@@ -795,3 +795,19 @@ add('C01.es_relu_reads_output', 'C01', (ES, "    relu_op.inputs = [relu_input_id
 add('C01.es_scale_wrong_type', 'C01', (ES, "      transformation_input.quant_params.scale,\n      schema_py_generated.TensorType.FLOAT32,", "      transformation_input.quant_params.scale,\n      schema_py_generated.TensorType.INT32,"), 'C01.R18',
     'the scale constant of the replacement is typed INT32')
 add('C01.twin_es_relu_name', 'C01', (ES, "    activation_output.name += b'_relu'\n", ""), (), 'the output tensor keeps its name when a RELU is appended: names stay unique', kind='twin')
+
+# which tensors the validator skips (C18.R9 decides on dtypes; seeded b12-C18)
+add('C18.skip_non_number', 'C18', (MV, "        if detail['dtype'] == np.object_:\n", "        if not np.issubdtype(detail['dtype'], np.number):\n"), 'C18.R9',
+    'the validator skips everything that is not a numpy number: boolean tensors are reported nowhere (seeded b12-C18)')
+add('C18.skip_integers', 'C18', (MV, "        if detail['dtype'] == np.object_:\n", "        if not np.issubdtype(detail['dtype'], np.floating):\n"), 'C18.R9',
+    'the validator compares float tensors only: quantized constants and indices are reported nowhere')
+add('C18.twin_skip_helper', 'C18', (MV, "        if detail['dtype'] == np.object_:\n", "        if np.issubdtype(detail['dtype'], np.object_):\n"), (),
+    'the same skip written with issubdtype', kind='twin')
+# shapes of inserted tensors (C02.R7 / C02.R9; seeded b12-C02)
+TU = 'transformations/transformation_utils.py'
+add('C02.new_tensor_static_one', 'C02', (TU, "  new_tensor = schema_py_generated.TensorT()\n  new_tensor.shape = shape\n  new_tensor.type = tensor_type\n  new_tensor.name = tensor_name\n  new_tensor.buffer = 0",
+    "  new_tensor = schema_py_generated.TensorT()\n  new_tensor.shape = [1] + list(shape[1:]) if shape is not None and len(shape) else shape\n  new_tensor.type = tensor_type\n  new_tensor.name = tensor_name\n  new_tensor.buffer = 0"),
+    ('C02.R7', 'C02.R9', 'C01.R3'), 'inserted tensors get batch 1 whatever the source tensor says (seeded b12-C02)')
+add('C02.twin_copy_signature', 'C02', ('transformations/quant_insert.py', "  new_tensor_id = transformation_utils.add_new_activation_tensor(\n      tensor.name + b'_quantized',\n      tensor.shape,\n      schema_py_generated.TensorType.FLOAT32,\n      transformation_input.subgraph,\n  )\n",
+    "  new_tensor_id = transformation_utils.add_new_activation_tensor(\n      tensor.name + b'_quantized',\n      tensor.shape,\n      schema_py_generated.TensorType.FLOAT32,\n      transformation_input.subgraph,\n  )\n  transformation_input.subgraph.tensors[new_tensor_id].shapeSignature = tensor.shapeSignature\n"),
+    (), 'the new tensor also carries the shape signature of its source: shapes unchanged', kind='twin')
